@@ -6,9 +6,10 @@ cd /verif; S=$1; R=$2; shift 2
 PROPS=${@:-C01 C02 C03 C04 C05 C08 C09 C11 C12 C13 C14 C15 C16}
 for P in $PROPS; do
   if [ -n "$(git -C ${VERIF_REPO:-/repo} status --porcelain --untracked-files=no)" ]; then echo "ABORT: the repository has uncommitted changes (a seeded change is applied?)"; exit 3; fi
-  VERIF_SEED=$S VERIF_RUNS=$R VERIF_SECS=900 ./check $P > /tmp/ku_$P.$S.log 2>&1
+  VERIF_SEED=$S VERIF_RUNS=$R VERIF_SECS=900 ./check $P > /tmp/ku_$P.$S.log 2>&1; rc=$?
   grep -E "^KNOWN" /tmp/ku_$P.$S.log | sed 's/^KNOWN-FINDING: property=\([^ ]*\) signature="\([^"]*\)" (\([0-9]*\) runs).*/KNOWN \1 \3 \2/'
   grep -A1 "^VIOLATION" /tmp/ku_$P.$S.log | grep "signature=" | sed "s/.*signature=\"\([^\"]*\)\" runs=\([0-9]*\).*/UNKNOWN $P \2 \1/"
-  tail -1 /tmp/ku_$P.$S.log
+  echo "rc=$rc $(grep -E "^check $P" /tmp/ku_$P.$S.log | tail -1)"
+  grep -E "exceeded the per-run|harness error|build trouble" /tmp/ku_$P.$S.log | sed "s/^/TROUBLE $P: /"
   if [ -n "$(git -C ${VERIF_REPO:-/repo} status --porcelain --untracked-files=no)" ]; then echo "TAINTED $P: /repo changed during the run"; fi
 done
